@@ -1287,10 +1287,6 @@ def check_diagrams(rep, cases: List[dict], model_ok: bool, kf_classes: set, tag:
                 if cls == "other" or (cls == "K_union_none_first" and (cls not in kf_classes or (model_ok and impl != model))):
                     rep.violation(dict(base, kind="counterexample", part="edges", impl=impl, spec=pyspec, model=model,
                                        explanation="differs from the independent reading in a way no listed class explains"))
-        elif st == "namesake_tc" and reference is not None and impl != reference and model_ok and impl == model \
-                and "K_namesake_retry" in kf_classes:
-            # open finding C17-d, exactly as the faithful model predicts (the retry's namespace shadows a module's own class)
-            dist["kf_instances"]["K_namesake_retry"] = dist["kf_instances"].get("K_namesake_retry", 0) + 1
         elif reference is not None and impl != reference:
             rep.violation(dict(base, kind="counterexample", part="edges", impl=impl, spec=reference, model=model, in_F=in_f,
                                explanation="graph encoding: [0, [nodes in order, sorted edges [kind 0 inh/1 assoc, source, target, field]]] or [1, exception]; names are numbered by case['ids']",
@@ -1388,8 +1384,6 @@ def check_diagrams(rep, cases: List[dict], model_ok: bool, kf_classes: set, tag:
         svals = core.coq_values(RUN, HEADER_SPEC, [f"spec_kind_sx {ty_coq(rt, c['ids'])}" for rt, _, c, _ in items],
                                 chunk=400, tag=tag + "_kinds")
         for (rt, pv, c, fk), sv in zip(items, svals):
-            if stream_of(c) == "namesake_tc":
-                pv, sv = pv[:8], sv[:8]   # which namesake a name denotes there is the edges comparison (open finding C17-d)
             if pv != sv:
                 rep.violation({"kind": "counterexample", "part": "classification", "field": fk, "annotation": ty_py(rt, False),
                                "impl": dict(zip(PRED_NAMES[:9], pv)), "spec": dict(zip(PRED_NAMES[:9], sv)),
